@@ -74,11 +74,13 @@ fn main() {
         if want_trace {
             if let Some(r) = &run.report {
                 let mut f = fs::File::create(format!("{outdir}/trace-{case}.txt")).unwrap();
-                writeln!(f, "# n={n} workers={w}").unwrap();
-                for (i, name) in run.dict.iter().enumerate() {
-                    writeln!(f, "# dict {i} {name}").unwrap();
-                }
+                f.write_all(trace_header(&world.db, &block, &run.dict, w, &orc.ben_before).as_bytes()).unwrap();
                 f.write_all(trace_lines(&r.trace).as_bytes()).unwrap();
+                writeln!(f, "# oracle result={:?}", orc.result).unwrap();
+                for (i, o) in orc.outcomes.iter().enumerate() {
+                    writeln!(f, "# oracle outcome {i} {o}").unwrap();
+                }
+                writeln!(f, "# grevm result={:?} outcomes={}", run.result.result, run.result.outcomes.len()).unwrap();
             }
         }
     }
